@@ -112,3 +112,71 @@ fn c09_known_word_ops_boundary_and_random() {
     }
     println!("CASES c09_known_word_ops {n}");
 }
+
+/// nested all-constant expression trees (depth up to 4 over every foldable operator, leaves from the boundary words and
+/// small numbers): `constant_fold` yields a constant, that constant is the value of the tree under the EVM's semantics
+/// (evaluated by the reference evaluator of c07_diff), and folding twice changes nothing
+#[test]
+fn c09_nested_constant_trees_fold_to_their_value() {
+    use std::sync::Arc;
+    use storage_layout_extractor::vm::value::{RSV, RSVD};
+    use crate::c07_diff::{ev, known};
+    fn tree(rng: &mut Rng, depth: u32, leaves: &[U256]) -> Arc<RSV> {
+        if depth == 0 || rng.below(5) == 0 { return known(leaves[rng.below(leaves.len() as u64) as usize]); }
+        let mut sub = |rng: &mut Rng| tree(rng, depth - 1, leaves);
+        let d = match rng.below(22) {
+            0 => RSVD::Add { left: sub(rng), right: sub(rng) },
+            1 => RSVD::Multiply { left: sub(rng), right: sub(rng) },
+            2 => RSVD::Subtract { left: sub(rng), right: sub(rng) },
+            3 => RSVD::Divide { dividend: sub(rng), divisor: sub(rng) },
+            4 => RSVD::SignedDivide { dividend: sub(rng), divisor: sub(rng) },
+            5 => RSVD::Modulo { dividend: sub(rng), divisor: sub(rng) },
+            6 => RSVD::SignedModulo { dividend: sub(rng), divisor: sub(rng) },
+            7 => RSVD::Exp { value: sub(rng), exponent: sub(rng) },
+            8 => RSVD::LessThan { left: sub(rng), right: sub(rng) },
+            9 => RSVD::GreaterThan { left: sub(rng), right: sub(rng) },
+            10 => RSVD::SignedLessThan { left: sub(rng), right: sub(rng) },
+            11 => RSVD::SignedGreaterThan { left: sub(rng), right: sub(rng) },
+            12 => RSVD::Equals { left: sub(rng), right: sub(rng) },
+            13 | 14 => RSVD::IsZero { number: sub(rng) },
+            15 => RSVD::And { left: sub(rng), right: sub(rng) },
+            16 => RSVD::Or { left: sub(rng), right: sub(rng) },
+            17 => RSVD::Xor { left: sub(rng), right: sub(rng) },
+            18 => RSVD::Not { value: sub(rng) },
+            19 => RSVD::LeftShift { shift: sub(rng), value: sub(rng) },
+            20 => RSVD::RightShift { shift: sub(rng), value: sub(rng) },
+            _ => RSVD::ArithmeticRightShift { shift: sub(rng), value: sub(rng) },
+        };
+        RSV::new_synthetic(0, d)
+    }
+    let mut leaves = boundary_words();
+    leaves.extend([0u128, 1, 2, 3, 7, 8, 31, 32, 255, 256, 257].map(U256::new));
+    let mut rng = Rng::seeded(909);
+    let n = 4000 * crate::scale();
+    for _ in 0..n {
+        let depth = 1 + rng.below(4) as u32;
+        let t = tree(&mut rng, depth, &leaves);
+        let want = ev(&t);
+        let folded = t.constant_fold();
+        let got = match folded.data() { RSVD::KnownData { value } => Some(value.value_le()), _ => None };
+        if want.is_none() { continue; }
+        if got != want {
+            witness("C09", "fold.nested_constant_tree_folds_to_its_value", format!("{t}"), format!("{}", match got { Some(g) => format!("{g:#x}"), None => format!("not a constant: {folded}") }), format!("{:#x}", want.unwrap()));
+        } else if folded.constant_fold().data() != folded.data() {
+            witness("C09", "fold.idempotent", format!("{t}"), "folding the folded tree changes it".into(), "unchanged".into());
+        }
+    }
+    // every even / odd depth of ISZERO over every leaf
+    for &x in &leaves {
+        let mut t = known(x);
+        for depth in 1..=6u32 {
+            t = RSV::new_synthetic(0, RSVD::IsZero { number: t });
+            let want = if depth % 2 == 1 { b(x == U256::ZERO) } else { b(x != U256::ZERO) };
+            let folded = t.constant_fold();
+            if !matches!(folded.data(), RSVD::KnownData { value } if value.value_le() == want) {
+                witness("C09", "fold.nested_constant_tree_folds_to_its_value", format!("ISZERO x {depth} of {x:#x}"), format!("{folded}"), format!("{want:#x}"));
+            }
+        }
+    }
+    println!("CASES c09_nested_trees {n}");
+}
